@@ -151,7 +151,7 @@ class Choices(base.HyperPrimitive):
                 self.sym_path,
             )
         )
-      if dna.value >= len(self.candidates):
+      if dna.value < 0 or dna.value >= len(self.candidates):
         raise ValueError(
             utils.message_on_path(
                 f'Choice out of range. Value: {dna.value!r}, '
@@ -200,7 +200,7 @@ class Choices(base.HyperPrimitive):
                   utils.KeyPath(i, self.sym_path),
               )
           )
-        if sub_dna.value >= len(self.candidates):
+        if sub_dna.value < 0 or sub_dna.value >= len(self.candidates):
           raise ValueError(
               utils.message_on_path(
                   f'Choice out of range. Value: {sub_dna.value}, '
